@@ -529,7 +529,7 @@ def gen_event(rng, srcs, delta, regime):
         ra = rng.uniform(0, TWO_PI)
     elif regime == 'wrap':
         dec = min(HALF_PI, max(-HALF_PI, s[1] + rng.uniform(-1, 1) * delta))
-        ra = rng.choice([0.0, 1e-9, TWO_PI - 1e-9, TWO_PI - 1e-3, 1e-3, PI, s[0], (s[0] + PI) % TWO_PI])
+        ra = rng.choice([0.0, 1e-9, TWO_PI - 1e-9, TWO_PI - 1e-3, 1e-3, PI, s[0], (s[0] + PI) % TWO_PI, TWO_PI])
     else:
         dec = math.asin(rng.uniform(-1, 1))
         ra = rng.uniform(0, TWO_PI)
@@ -639,6 +639,256 @@ def gen_incoming(rng, ns, ne, kind):
     if kind == 'range':
         t.insert(rng.randint(0, len(t)), rng.choice([(ns, 0), (0, ne), (-ns - 1, 0), (0, -ne - 1)]))
     return t
+
+
+# ------------------------------------------------------------------ history probes
+# Metamorphic probes on the REAL objects (no model needed): the result of select_events /
+# initialize_trial is a function of the current sources, parameters and arguments only.
+# Every observation on a re-used object is compared with a freshly constructed twin.
+
+def has_kind(spec, k):
+    return any(a[0] == k for a in atoms(spec))
+
+
+def perturb(spec, rng):
+    """same tree, other parameters"""
+    k = spec[0]
+    if k == 'and':
+        return ['and', perturb(spec[1], rng), perturb(spec[2], rng)]
+    if k in ('dec', 'ra', 'box'):
+        return [k, rng.choice([d for d in DELTAS if d != spec[1]])]
+    if k == 'angerr':
+        return ['angerr', rng.choice([x for x in (0.0, 0.1, 0.5) if x != spec[1]]), spec[2] + 0.01,
+                rng.choice([x for x in (0.0, 0.2, 0.5) if x != spec[3]])]
+    if k == 'psifunc':
+        return ['psifunc', rng.choice([x for x in (0.5, 3.0, 20.0) if x != spec[1]])]
+    return list(spec)
+
+
+def retune(meth, spec2):
+    """apply the parameters of spec2 through the public setters of the (nested) instance"""
+    k = spec2[0]
+    if k == 'and':
+        retune(meth.evt_sel_method1, spec2[1])
+        retune(meth.evt_sel_method2, spec2[2])
+    elif k in ('dec', 'ra', 'box'):
+        meth.delta_angle = spec2[1]
+    elif k == 'angerr':
+        a, b = spec2[1], spec2[2]
+        meth.func = lambda psi: a * psi + b
+        meth.psi_floor = spec2[3]
+    elif k == 'psifunc':
+        c = spec2[1]
+        meth.func = lambda ang_err: c * ang_err
+
+
+def raw_select(meth, events, inc=None):
+    kw = {} if inc is None else {'src_evt_idxs': inc}
+    (sel, (si, ei), org) = meth.select_events(events, ret_original_evt_idxs=True, **kw)
+    return sel, si, ei, org
+
+
+def canon_raw(raw):
+    sel, si, ei, org = raw
+    return ['Ok', ints(sel['id']), list(zip(ints(si), ints(ei))), ints(org)]
+
+
+def observe(meth, events, inc=None):
+    try:
+        raw = raw_select(meth, events, inc)
+        return canon_raw(raw), raw
+    except Exception as ex:  # noqa: BLE001
+        return ['Err', type(ex).__name__], None
+
+
+def snap(ev):
+    return {n: ev[n].tobytes() for n in ev.field_name_list}
+
+
+def result_arrays(raw):
+    sel, si, ei, org = raw
+    return [('events.' + n, sel[n]) for n in sel.field_name_list] + [('src_idxs', si), ('evt_idxs', ei), ('org_idxs', org)]
+
+
+def history_select(ctx, rng, c):
+    srcs = [tuple(x) for x in c['srcs']]
+    evs1 = [list(e) for e in c['evs']]
+    spec = c['spec']
+    site = site_of(spec) + '[history]'
+    ns = len(srcs)
+    one_src = has_kind(spec, 'psifunc')
+    srcs2 = gen_sources(rng, 1 if one_src else rng.choice([n for n in (1, 2, 3, 5) if n != ns] + [ns]))
+    srcs3 = [((s_[0] + 0.3) % TWO_PI, max(-HALF_PI, min(HALF_PI, -s_[1] * 0.9))) for s_ in srcs]   # edited positions
+    evs2 = gen_events(rng, srcs2, 0.3, rng.choice([3, 7, 15]), (2, 5, 1, 2, 2))
+    spec2 = perturb(spec, rng)
+    case = {'srcs': srcs, 'evs': evs1, 'spec': spec, 'history': {'srcs2': srcs2, 'srcs3': srcs3, 'evs2': evs2, 'spec2': spec2}}
+
+    def fresh(sp, sr, ev, inc=None):
+        return run_select(sp, sr, ev, inc=inc)[0]
+
+    def bad(kind, detail, got, want):
+        ctx.violation(site, kind, detail, case=case, impl=got, model=want,
+                      predicate='re-used instance == freshly constructed instance')
+
+    ctx.count('history_select')
+    shg1 = build_shg(srcs)
+    m = build_method(spec, shg1)
+    E1, E2 = mk_events(evs1), mk_events(evs2)
+    s1, s2 = snap(E1), snap(E2)
+    want1 = fresh(spec, srcs, evs1)
+    want2 = fresh(spec, srcs, evs2) if ns == len(srcs) else None
+    # repeat, same ndarray arguments handed to consecutive calls
+    r1, raw1 = observe(m, E1)
+    if r1 != want1:
+        bad('first-call-differs', 'first call on a new instance differs from another new instance', r1, want1)
+    keep = [(n, a, a.copy()) for n, a in result_arrays(raw1)] if raw1 else []
+    r1b, raw1b = observe(m, E1)
+    if r1b != r1:
+        bad('repeat-differs', 'second identical call differs from the first', r1b, r1)
+    # interleave another events array, then the first again
+    r2, raw2 = observe(m, E2)
+    if r2 != want2:
+        bad('interleave-differs', 'call with other events differs from a new instance', r2, want2)
+    r1c, _ = observe(m, E1)
+    if r1c != r1:
+        bad('interleave-differs', 'result changed after a call with other events', r1c, r1)
+    # returned values are owned by the caller
+    for n, a, cp in keep:
+        if a.tobytes() != cp.tobytes():
+            bad('result-overwritten', f'{n} returned by an earlier call was changed by a later call', n, None)
+    if raw1 and raw2:
+        for n1, a in result_arrays(raw1):
+            for n2, b in result_arrays(raw2):
+                if a.size and b.size and np.shares_memory(a, b):
+                    bad('result-aliased', f'{n1} of one call shares memory with {n2} of a call on other events', [n1, n2], None)
+    # the caller scribbles on what it was given back (only arrays that are not the inputs themselves)
+    if raw1b:
+        inputs = [E1[n] for n in E1.field_name_list] + [E1.indices]
+        for n, a in result_arrays(raw1b):
+            if a.size and a.flags.writeable and not any(np.shares_memory(a, x) for x in inputs):
+                a[...] = 0 if a.dtype.kind in 'iu' else 0.125
+        r1d, _ = observe(m, E1)
+        if r1d != r1:
+            bad('result-aliased-to-state', 'writing into returned arrays changed a later result', r1d, r1)
+    # arguments are inputs
+    if snap(E1) != s1 or snap(E2) != s2:
+        bad('argument-modified', 'the events argument was modified by select_events', None, None)
+    if r1[0] == 'Ok' and ns * len(evs1) > 0:
+        full = (np.repeat(np.arange(ns), len(evs1)), np.tile(np.arange(len(evs1)), ns))
+        keep_inc = (full[0].copy(), full[1].copy())
+        ri, _ = observe(m, E1, inc=full)
+        wi = fresh(spec, srcs, evs1, inc=list(zip(ints(keep_inc[0]), ints(keep_inc[1]))))
+        if ri != wi:
+            bad('incoming-table-differs', 'call with an incoming table differs from a new instance', ri, wi)
+        if full[0].tobytes() != keep_inc[0].tobytes() or full[1].tobytes() != keep_inc[1].tobytes():
+            bad('argument-modified', 'the src_evt_idxs argument was modified by select_events', None, None)
+        rj, _ = observe(m, E1)
+        if rj != r1:
+            bad('interleave-differs', 'result changed after a call with an incoming table', rj, r1)
+    # mutate-then-observe: parameter setters (observables were read before), and back
+    retune(m, spec2)
+    rs, _ = observe(m, E1)
+    ws = fresh(spec2, srcs, evs1)
+    if rs != ws:
+        bad('stale-after-setter', 'after the parameter setters the result differs from a new instance with these parameters', rs, ws)
+    retune(m, spec)
+    rs, _ = observe(m, E1)
+    if rs != r1:
+        bad('stale-after-setter', 'after setting the parameters back the result differs', rs, r1)
+    # change_shg_mgr: new manager with other sources / other number of sources
+    m.change_shg_mgr(build_shg(srcs2))
+    rc, _ = observe(m, E1)
+    wc = fresh(spec, srcs2, evs1)
+    if rc != wc:
+        bad('stale-after-change_shg_mgr', 'after change_shg_mgr(new manager) the result differs from a new instance', rc, wc)
+    rc, _ = observe(m, E2)
+    wc = fresh(spec, srcs2, evs2)
+    if rc != wc:
+        bad('stale-after-change_shg_mgr', 'after change_shg_mgr(new manager) the result differs from a new instance', rc, wc)
+    # same manager, sources edited in place, change_shg_mgr(same manager)
+    m.change_shg_mgr(shg1)
+    rc, _ = observe(m, E1)
+    if rc != r1:
+        bad('stale-after-change_shg_mgr', 'after changing back to the first manager the result differs', rc, r1)
+    for src, (ra, dec) in zip(shg1.source_list, srcs3):
+        src.ra = ra
+        src.dec = dec
+    m.change_shg_mgr(shg1)
+    rc, _ = observe(m, E1)
+    wc = fresh(spec, srcs3, evs1)
+    if rc != wc:
+        bad('stale-after-edited-sources', 'after editing the sources and change_shg_mgr(same manager) the result differs '
+            'from a new instance', rc, wc)
+    # two instances built before first use, called alternately
+    shgA, shgB = build_shg(srcs), build_shg(srcs2)
+    mA, mB = build_method(spec, shgA), build_method(spec2, shgB)
+    for which, ev, evl in (('A', E1, evs1), ('B', E1, evs1), ('A', E2, evs2), ('B', E2, evs2), ('A', E1, evs1)):
+        got, _ = observe(mA if which == 'A' else mB, ev)
+        want = fresh(spec, srcs, evl) if which == 'A' else fresh(spec2, srcs2, evl)
+        if got != want:
+            bad('instances-interfere', f'instance {which} called alternately with another instance differs from a new instance',
+                got, want)
+    if snap(E1) != s1 or snap(E2) != s2:
+        bad('argument-modified', 'the events argument was modified by select_events', None, None)
+
+
+def history_tdm(ctx, rng, c):
+    from skyllh.core.trialdata import TrialDataManager
+    srcs = [tuple(x) for x in c['srcs']]
+    evs1 = [list(e) for e in c['evs']]
+    spec = c['spec']
+    site = 'TrialDataManager.initialize_trial[history]'
+    one_src = has_kind(spec, 'psifunc')
+    srcs2 = gen_sources(rng, 1 if one_src else rng.choice([1, 2, 4]))
+    evs2 = gen_events(rng, srcs2, 0.3, rng.choice([4, 9]), (2, 5, 1, 2, 2))
+    spec2 = perturb(spec, rng)
+    case = {'srcs': srcs, 'evs': evs1, 'spec': spec, 'history_tdm': {'srcs2': srcs2, 'evs2': evs2, 'spec2': spec2}}
+    ctx.count('history_tdm')
+    shg1, shg2 = build_shg(srcs), build_shg(srcs2)
+    m1, m2 = build_method(spec, shg1), build_method(spec2, shg2)
+    trials = [(m1, spec, shg1, srcs, evs1), (None, None, shg1, srcs, evs2), (m2, spec2, shg2, srcs2, evs1),
+              (None, None, shg2, srcs2, evs1), (m1, spec, shg1, srcs, evs1), (None, None, shg1, srcs, evs1)]
+    for sort0 in (True, False):
+        tdm = TrialDataManager(index_field_name='time' if sort0 else None)
+        sort = sort0
+        kept = None
+        for i, (m, sp, shg, sr, evl) in enumerate(trials):
+            if i == 3:                       # the index field is changed between trials
+                sort = not sort
+                tdm.index_field_name = 'time' if sort else None
+            ev = mk_events(evl)
+            before = snap(ev)
+            try:
+                tdm.initialize_trial(shg, None, ev, evt_sel_method=m)
+                (si, ei) = tdm.src_evt_idxs
+                got = ['Ok', ints(tdm.events['id']), list(zip(ints(si), ints(ei)))]
+            except Exception as ex:  # noqa: BLE001
+                got, si, ei = ['Err', type(ex).__name__], None, None
+            want = run_tdm(sp, sr, evl, sort)
+            if got != want:
+                ctx.violation(site, 'reused-manager-differs', f'trial {i} on a re-used TrialDataManager differs from a new one',
+                              case=dict(case, trial=i, sort=sort), impl=got, model=want,
+                              predicate='re-used TrialDataManager == new TrialDataManager')
+            if kept is not None and (kept[0].tobytes() != kept[2] or kept[1].tobytes() != kept[3]):
+                ctx.violation(site, 'result-overwritten', 'src_evt_idxs of the previous trial were changed by the next trial',
+                              case=dict(case, trial=i, sort=sort))
+            kept = (si, ei, si.tobytes(), ei.tobytes()) if si is not None else None
+            after = snap(ev)
+            if got[0] == 'Ok' and tdm.events is not ev and after != before:
+                ctx.violation(site, 'argument-modified', 'the events argument was modified although a selection was stored',
+                              case=dict(case, trial=i, sort=sort))
+            if got[0] == 'Ok' and tdm.events is ev and sorted(ints(ev['id'])) != list(range(len(evl))):
+                ctx.violation(site, 'argument-rows-lost', 'rows of the events argument were lost or duplicated',
+                              case=dict(case, trial=i, sort=sort))
+
+
+def history_probes(ctx, rng, c):
+    try:
+        history_select(ctx, rng, c)
+        history_tdm(ctx, rng, c)
+    except Exception as ex:  # noqa: BLE001
+        ctx.violation(site_of(c['spec']) + '[history]', 'probe-raises-' + type(ex).__name__,
+                      f'a history probe raised: {ex}', case={'srcs': c['srcs'], 'evs': c['evs'], 'spec': c['spec']})
 
 
 # ------------------------------------------------------------------ driver
@@ -780,9 +1030,13 @@ def run(ctx):
         c = gen_case(ctx, rng)
         if c is not None:
             cases.append(c)
+    n_hist = ctx.budget(45, 500)
     for c in cases:
         ctx.case({'srcs': c['srcs'], 'evs': c['evs'], 'spec': c['spec'], 'sort': c.get('sort')})
         one_case(ctx, c, terms, checks)
+        if n_hist > 0 and len(c['srcs']) <= 12 and len(c['evs']) >= 1:
+            n_hist -= 1
+            history_probes(ctx, rng, c)
     for c in cases[-3:]:
         ctx.sample({'n_sources': len(c['srcs']), 'n_events': len(c['evs']), 'method': shape(c['spec']),
                     'sources': [list(s) for s in c['srcs'][:3]], 'events_ra_dec': [e[:2] for e in c['evs'][:3]]})
